@@ -178,3 +178,24 @@ claim("C05", "exploration", "TLA+ module-space generator (TLC enumerates the fea
       "Wat2Wasm(print(parse(src))) must equal Wat2Wasm(src) byte for byte (name section included) and print must be idempotent.",
       "Role G (bounded-exhaustive generator with an identity oracle): level exploration. 'Accepted by the reference assembler' is not decidable (WABT absent).",
       "DESIGN.md section 4 (WebAssembly hub, E5)")
+
+claim("C01", "model_checking", "TLA+ transcription of Go's integer semantics (WaInt.tla on BV, evaluated by TLC over the operand space) + one execution of every case in compiled Wa programs",
+      "WaInt.tla defines wrap-around + - * & | ^ &^, truncating / % (MIN / -1 = MIN, MIN % -1 = 0), shifts by unsigned counts (count >= width gives 0 or the sign fill), the six "
+      "comparisons, unary - ^ and every integer conversion, at int, uint, i32, i64, u8, u16, u32, u64 (quick: i32, u8, i64). TLC evaluates every (type, operator, operand pair) over "
+      "14 boundary operands and 13 shift counts; each case runs through a Wa function whose operands are parameters, in programs compiled and executed by the real toolchain "
+      "(a case that stops the program is reported and the rest re-run). Slice/append aliasing is decided by WaStore.tla (second part of this check).",
+      "Trusted: TLC, BV.tla, the renderer. Decided: the integer kernel and the slice store model only; floats, strings, maps (C13), closures, methods, interfaces, defer are not in "
+      "the case space. Open known findings: signed MIN / -1 traps; shift counts are taken modulo the width.",
+      "DESIGN.md section 4 (language kernel)")
+claim("C15", "model_checking", "TLA+ exact (128-bit) constant semantics evaluated by TLC + compilation of every constant form (value printed, or positioned compile error)",
+      "For the same cases as C01, WaInt.tla computes the exact value of the operation on typed constants at 128 bits and whether it is representable in the type; the harness compiles "
+      "println(T(a) op T(b)) (and shifts by constant counts, unary operators, constant conversions): a representable case must print the exact value, an unrepresentable one (or a "
+      "division by constant zero) must be rejected with a positioned compile error - each rejected case is compiled on its own. C01 ties the run-time value of the same case to the same spec.",
+      "Trusted: TLC, BV.tla. Integer constants only; untyped arithmetic beyond 128 bits and float constants are not decided.",
+      "DESIGN.md section 4 (language kernel)")
+claim("C09", "exploration", "TLC-generated kernel cases rendered in both surface syntaxes by independent tables and run: identity of outputs (and equality with the specification)",
+      "Every WaInt case (run-time form through functions with typed parameters, and constant form) for u16, int, uintptr, byte, rune (quick) / all integer type names (thorough) is rendered "
+      "as a .wa and as a .wz program - type names, func/return, println, main from tables written from token/const_wz.go - and both are compiled and run; outputs must be equal "
+      "(the Chinese runtime's 真/假 for true/false is normalised) and a program that compiles in one syntax must compile in the other.",
+      "Role G: level exploration. Control-flow keywords are only exercised by C29's .wz renderings. Observation: the .wz names 微整型/短整型 (i8/i16) have no .wa counterpart and make the backend exit with 'Unknown type'.",
+      "DESIGN.md section 4 (language kernel)")
